@@ -138,6 +138,12 @@ def enumerated(tier, seed):
     for c in NOBYTE:
         yield c
     yield from pair_cases()
+    # lists of 64 elements in their longest spellings (operand fields of 250-640 characters)
+    for directive, width in (("FCB", 1), ("FDB", 2)):
+        for kind, v, sp in (("lit", 255, "bin8"), ("lit", 200, "hex4"), ("lit", -100, "dec"), ("lit", 255, "dec"), ("equ_before", 77, "dec"),
+                            ("lit", 65535 if width == 2 else 255, "dec"), ("lit", 4660 if width == 2 else 18, "hex4")):
+            for n in (40, 52, 64):
+                yield dict(dir=directive, elems=[dict(kind=kind, v=(v + i) % 256 if v >= 0 and width == 1 else v, sp=sp) for i in range(n)], comment=None)
 
 
 # two statements naming one label that lies below $100: each data directive must emit the label at its own width,
